@@ -19,3 +19,5 @@ Fixpoint cl3 (a b : list (list (list float))) : bool :=
 Definition clw (rtol atol : float) := fclose rtol atol.
 Definition cllw (rtol atol : float) := fclose_list rtol atol.
 Definition clmw (rtol atol : float) := fclose_mat rtol atol.
+Fixpoint cl3w (rtol atol : float) (a b : list (list (list float))) : bool :=
+  match a, b with [], [] => true | x :: a', y :: b' => andb (fclose_mat rtol atol x y) (cl3w rtol atol a' b') | _, _ => false end.
